@@ -96,13 +96,13 @@ class LegacyContext(Context):
         # altitude.
         self.des_start_altitude = self.crz_start_altitude
 
-        # Set descent altitude based on 3000' above arrival airport altitude;
-        # clamp to aircraft operating ceiling if needed.
+        # Set descent altitude based on 3000' above arrival airport altitude.
+        # (This is not clamped to the aircraft operating ceiling: a descent
+        # that would have to end above the cruise altitude is rejected below
+        # instead of silently ending the flight below the arrival altitude.)
         self.des_end_altitude = (
             mission.destination_position.altitude + 3000.0 * FEET_TO_METERS
         )
-        if self.des_end_altitude >= ac_performance.maximum_altitude:
-            self.des_end_altitude = ac_performance.maximum_altitude
 
         if self.crz_start_altitude < self.clm_start_altitude:
             raise ValueError(
